@@ -576,27 +576,27 @@ int main(int argc, char** argv) {
         Plan pl; pl.K = 1; pl.rss = RS_TWO; pl.fills = FILLS3; pl.fillK = 0;
         Plan pb; pb.K = 1; pb.rss = RS_TWO;
         std::vector<S> xs, ys, zs;
-        strings(S("\r\n: a"), thorough ? 6 : 4, xs);
+        strings(S("\r\n: a"), thorough ? 5 : 3, xs);
         for (auto& x : xs) { run_msg({"resp", "HTTP/1.1 200 \r\n" + x + "\r\n\r\n"}, pl, rng); run_msg({"req", "GET / HTTP/1.1\r\n" + x + "\r\n\r\n"}, pl, rng); }
-        strings(S("H/1. \r\n"), thorough ? 5 : 3, ys);
+        strings(thorough ? S("H/1. \r\n") : S("H1 \r\n"), thorough ? 4 : 3, ys);
         for (auto& y : ys) { run_msg({"resp", y + "\r\n\r\n"}, pl, rng); run_msg({"req", y + "\r\n\r\n"}, pl, rng); }
-        strings(S("\r\n02ag"), thorough ? 7 : 5, zs);
+        strings(S("\r\n02ag"), thorough ? 6 : 4, zs);
         for (auto& z : zs) run_msg({"cbody", z}, pb, rng);
         static const unsigned char subst[] = {'\r', '\n', ':', ' ', '0', 'a', 0, 0xff};
         for (auto& m : valid_heads()) {
             for (size_t k = 0; k < m.bytes.size(); k++) {
                 Msg t = m; t.bytes = m.bytes.substr(0, k); run_msg(t, pl, rng);
                 Msg d = m; d.bytes.erase(k, 1); run_msg(d, pl, rng);
-                for (size_t q = 0; q < (thorough ? sizeof subst : 2); q++) {
+                for (size_t q = 0; q < (thorough ? sizeof subst : 1); q++) {
                     Msg s = m; if ((unsigned char)s.bytes[k] != subst[q]) { s.bytes[k] = subst[q]; run_msg(s, pl, rng); }
-                    Msg i = m; i.bytes.insert(k, 1, subst[q]); run_msg(i, pl, rng);
+                    if (thorough) { Msg i = m; i.bytes.insert(k, 1, subst[q]); run_msg(i, pl, rng); }
                 }
             }
         }
     }
     if (want("random")) {
         // (R) seeded random messages (valid by construction, and mutated), random fragmentations, random read-size patterns
-        int N = thorough ? 4000 : 500;
+        int N = thorough ? 4000 : 300;
         for (int i = 0; i < N; i++) {
             Msg m = random_msg(rng, i % 10 == 0 ? 150 : 40);
             if (i % 3 == 2) m.bytes = mutate(rng, m.bytes);
